@@ -408,8 +408,9 @@ connection / substream / dial events, user commands and write failures at any me
 section ProtoLevel
 open Proto
 
-/-- Small limits for the examples: 10 data bytes per batch, 4 blocks per batch, 100-byte messages. -/
-def toyL : Limits := ⟨10, 4, 100, 100⟩
+/-- Small limits for the examples: 10 data bytes per batch, 4 blocks per batch, 100-byte messages;
+`WRITE_TIMEOUT` = 15 000 ms. -/
+def toyL : Limits := ⟨10, 4, 100, 100, 15000⟩
 def toyK : Kind := ⟨1, 85, 18, 32⟩
 /-- three blocks of 6 bytes: one message each under `toyL` -/
 def toyR : List REntry := [.block ⟨toyK, 4, 6, 1⟩, .block ⟨toyK, 4, 6, 2⟩, .block ⟨toyK, 4, 6, 3⟩]
@@ -437,8 +438,8 @@ theorem response_delivered_or_dropped_whole (L : Limits) (ops : List Op) (t : At
 message, then a fresh substream: two calls, the first wrote one message and failed, the second wrote
 all three. -/
 example :
-    ((run toyL {} [.conn 1 true, .command 1 (.response []), .subopen 0 none 0, .plan 0 (some 1) 0,
-        .command 1 (.response toyR), .subopen 1 none 0]).2.map fun t => (t.sub, t.written.length, t.ok)) =
+    ((run toyL {} [.conn 1 true, .command 1 (.response []), .subopen 0 none 0 [], .plan 0 (some 1) 0 [],
+        .command 1 (.response toyR), .subopen 1 none 0 []]).2.map fun t => (t.sub, t.written.length, t.ok)) =
       [(0, 0, true), (0, 1, false), (1, 3, true)] := by
   decide
 
@@ -478,7 +479,7 @@ theorem cached_failure_requeues_whole (L : Limits) (st : St) (p s : Nat) (a : Ac
 
 /-- Non-vacuity: the state after the failing call of the example above. -/
 example :
-    let st := (run toyL {} [.conn 1 true, .command 1 (.response []), .subopen 0 none 0, .plan 0 (some 1) 0]).1
+    let st := (run toyL {} [.conn 1 true, .command 1 (.response []), .subopen 0 none 0 [], .plan 0 (some 1) 0 []]).1
     alookup 1 st.outbound = some 0 ∧ (attempt toyL 0 (st.far 0) (.response toyR)).1.ok = false ∧
     alookup 1 (onCommand toyL st 1 (.response toyR)).1.pendingOutbound = some [.response toyR] ∧
     (onCommand toyL st 1 (.response toyR)).1.pendingSubstreams = [(1, 1)] := by
@@ -524,25 +525,26 @@ response is sent completely, the second from its first message up to the failure
 example :
     let st := (run toyL {} [.conn 1 true, .command 1 (.response toyR), .command 1 (.response toyR)]).1
     alookup 1 st.pendingOutbound = some [.response toyR, .response toyR] ∧
-    ((onOutboundSubstream toyL st 1 0 ⟨some 4, 0, false⟩).2.attempts.map fun t => (t.written.length, t.ok)) =
+    ((onOutboundSubstream toyL st 1 0 ⟨some 4, 0, false, []⟩).2.attempts.map fun t => (t.written.length, t.ok)) =
       [(3, true), (1, false)] ∧
-    (onOutboundSubstream toyL st 1 0 ⟨some 4, 0, false⟩).1.outbound = [] := by
+    (onOutboundSubstream toyL st 1 0 ⟨some 4, 0, false, []⟩).1.outbound = [] := by
   decide
 
 /-- **Nothing else touches the queue.** The operations that are neither a user command nor one of
 the events `SubstreamOpened(outbound)`, `SubstreamOpenFailure`, `ConnectionClosed`, `DialFailure`,
-`ConnectionEstablished` leave `pending_outbound` as it is: a queued response is dropped only where the
+`ConnectionEstablished` (in particular inbound frames, whole or arriving in pieces) leave
+`pending_outbound` as it is: a queued response is dropped only where the
 handlers say so (dial failure, substream-open failure, connection closed, a failed `open_substream`
 after the dial, a failed call on the fresh substream, no way to get a substream at all). -/
 theorem queue_untouched_by_other_events (L : Limits) (st : St) (op : Op)
     (h : match op with
-      | .view _ _ | .conndead _ | .plan _ _ _ | .insub _ | .inmsg _ _ | .inend _ => True
+      | .view _ _ | .conndead _ | .plan _ _ _ _ | .insub _ | .inmsg _ _ | .inhold _ | .inrest _ _ | .inend _ => True
       | _ => False) :
     (step L st op).1.pendingOutbound = st.pendingOutbound := by
   cases op with
   | view p v => rfl
   | conndead p => simp only [step]; split <;> rfl
-  | plan s b o =>
+  | plan s b o ds =>
     simp only [step]
     split
     · rfl
@@ -552,12 +554,26 @@ theorem queue_untouched_by_other_events (L : Limits) (st : St) (op : Op)
     simp only [step]
     split
     · rfl
+    · split
+      · rfl
+      · split <;> rfl
+  | inhold k =>
+    simp only [step]
+    split
+    · rfl
     · split <;> rfl
+  | inrest k d =>
+    simp only [step]
+    split
+    · rfl
+    · split
+      · split <;> rfl
+      · rfl
   | inend k => simp only [step]; split <;> rfl
   | conn _ _ => exact absurd h (by simp)
   | disc _ => exact absurd h (by simp)
   | dialfail _ => exact absurd h (by simp)
-  | subopen _ _ _ => exact absurd h (by simp)
+  | subopen _ _ _ _ => exact absurd h (by simp)
   | subfail _ => exact absurd h (by simp)
   | command _ _ => exact absurd h (by simp)
 
@@ -567,6 +583,91 @@ example :
     ((run toyL {} [.command 2 (.response toyR), .view 2 .dialing, .conn 1 true, .insub 1, .conndead 1]).1.pendingOutbound,
      (run toyL {} [.command 2 (.response toyR), .view 2 .dialing, .conn 1 true, .insub 1, .conndead 1,
         .dialfail 2]).1.pendingOutbound) = ([(2, [.response toyR])], []) := by
+  decide
+
+/-! ### time: `WRITE_TIMEOUT` is a budget per message
+
+Every `substream.send_framed(message)` in `send_request` / `send_response` runs under its own
+`tokio::time::timeout(WRITE_TIMEOUT, ..)`. Neither a call of `send_response`, nor the flush of the queue in
+`on_outbound_substream`, nor an iteration of the event loop has a time limit of its own. The far end of a
+substream takes `Far.delays` (ms, one entry per further message, the last repeats) to accept a message;
+`Far.Timely wt`: it refuses nothing and none of these exceeds `wt`. -/
+
+/-- **Only single messages time out.** Over a far end that accepts every message within `WRITE_TIMEOUT`
+a call of `send_request` / `send_response` writes ALL messages of its action — for a response: every
+block that fits a message, once and in order (`blocks_sent_regardless_of_presences`) — and returns what
+the codec says (`Ok` unless a message exceeds the codec's limit, which the configured codec never sees),
+leaves no partial message, takes the sum of the messages' times — no hypothesis bounds that sum: it may
+exceed `WRITE_TIMEOUT` any number of times —, and leaves the far end as timely as it was (the substream
+stays usable for the next call). -/
+theorem per_frame_timeout_only (L : Limits) (s : Nat) (f : Far) (a : Action) (h : f.Timely L.writeTimeout) :
+    (attempt L s f a).1.written = (actionFrames L a).1 ∧
+    (attempt L s f a).1.ok = (actionFrames L a).2 ∧
+    (attempt L s f a).1.partialBytes = 0 ∧
+    (attempt L s f a).1.elapsed = elapsedOf f.delays (actionFrames L a).1.length ∧
+    (attempt L s f a).2.Timely L.writeTimeout :=
+  attempt_timely L s f a h
+
+/-- Non-vacuity: three messages at 6 s each over a cached substream — 18 s > `WRITE_TIMEOUT` = 15 s in
+total, all three written, `Ok`; and five at 14.999 s. -/
+example :
+    (Far.Timely toyL.writeTimeout ⟨none, 0, false, [6000]⟩) ∧
+    ((fun t : Attempt => (t.written.length, t.ok, t.elapsed))
+      (attempt toyL 0 ⟨none, 0, false, [6000]⟩ (.response toyR)).1) = (3, true, 18000) ∧
+    ((fun t : Attempt => (t.written.length, t.ok, t.elapsed))
+      (attempt toyL 0 ⟨none, 0, false, [14999]⟩ (.response (toyR ++ toyR.take 2))).1) = (5, true, 74995) := by
+  refine ⟨⟨rfl, by decide⟩, by decide, by decide⟩
+
+/-- **A slow link gets the whole queue.** When the outbound substream opens for a peer with queued
+actions (queued while the substream was being opened or the peer dialled) and its far end accepts every
+message within `WRITE_TIMEOUT`, then — however long the flush takes as a whole — every queued action is
+sent completely and in queue order (each call writes all messages of its action and returns `Ok`),
+nothing stays queued, and the substream is cached. (`hc`: no message exceeds the codec's limit.) -/
+theorem slow_link_flushes_whole_queue (L : Limits) (st : St) (p s : Nat) (f : Far) (q : List Action)
+    (hq : alookup p st.pendingOutbound = some q) (hf : f.Timely L.writeTimeout)
+    (hc : ∀ a ∈ q, (actionFrames L a).2 = true) :
+    (onOutboundSubstream L st p s f).2.attempts.map (fun t => (t.action, t.written, t.ok)) =
+      q.map (fun a => (a, (actionFrames L a).1, true)) ∧
+    alookup p (onOutboundSubstream L st p s f).1.pendingOutbound = none ∧
+    alookup p (onOutboundSubstream L st p s f).1.outbound = some s := by
+  obtain ⟨h1, h2⟩ := runActions_timely L s q f hf hc
+  unfold onOutboundSubstream
+  simp only [hq, h2, if_true]
+  exact ⟨h1, alookup_aerase_self _ _, alookup_ainsert_self _ _ _⟩
+
+/-- Non-vacuity: a request and a response of three messages queued during the dial, the fresh substream
+takes 5.001 s per message — 20 s in all: four messages in two calls, the substream is cached. -/
+example :
+    let st := (run toyL {} [.command 2 (.request [⟨toyK, 36, 7, 0⟩]), .command 2 (.response toyR), .conn 2 true]).1
+    alookup 2 st.pendingOutbound = some [.request [⟨toyK, 36, 7, 0⟩], .response toyR] ∧
+    ((onOutboundSubstream toyL st 2 0 ⟨none, 0, false, [5001]⟩).2.attempts.map
+      fun t => (t.written.length, t.ok, t.elapsed)) = [(1, true, 5001), (3, true, 15003)] ∧
+    (onOutboundSubstream toyL st 2 0 ⟨none, 0, false, [5001]⟩).1.outbound = [(2, 0)] := by
+  decide
+
+/-- **A message slower than `WRITE_TIMEOUT` fails its call** (`Error::Timeout`): if the far end refuses
+nothing, accepts the first `j` messages of the action in time and takes longer than `WRITE_TIMEOUT` for
+the next one, the call writes exactly those `j` messages, no byte of the slow one, and returns an error
+(the cached substream is then dropped and the action re-queued — `cached_failure_requeues_whole` —, a
+fresh one is dropped with the rest of the queue — `fresh_substream_runs_queue_in_order`). -/
+theorem frame_over_timeout_fails_call (L : Limits) (s : Nat) (f : Far) (a : Action) (j : Nat)
+    (hb : f.budget = none) (hj : j < (actionFrames L a).1.length)
+    (hpre : timely L.writeTimeout f.delays j = j)
+    (hlate : L.writeTimeout < delayHead (delaysAfter j f.delays)) :
+    (attempt L s f a).1.written = (actionFrames L a).1.take j ∧
+    (attempt L s f a).1.ok = false ∧
+    (attempt L s f a).1.partialBytes = 0 := by
+  have ht := timely_late j hpre hlate hj
+  have hne : (j == (actionFrames L a).1.length) = false := by
+    simp only [beq_eq_false_iff_ne, ne_eq]; omega
+  simp only [attempt, Far.take, Far.partialOf, hb, ht, hne, Bool.false_and, and_self]
+
+/-- Non-vacuity: 6 s, 6 s, then 15.001 s: two of the three messages are written, the call fails. -/
+example :
+    timely toyL.writeTimeout [6000, 6000, 15001] 2 = 2 ∧
+    toyL.writeTimeout < delayHead (delaysAfter 2 [6000, 6000, 15001]) ∧
+    ((fun t : Attempt => (t.written.length, t.ok, t.elapsed))
+      (attempt toyL 0 ⟨none, 0, false, [6000, 6000, 15001]⟩ (.response toyR)).1) = (2, false, 12000) := by
   decide
 
 end ProtoLevel
@@ -585,6 +686,9 @@ end ProtoLevel
 #print axioms cached_failure_requeues_whole
 #print axioms fresh_substream_runs_queue_in_order
 #print axioms queue_untouched_by_other_events
+#print axioms per_frame_timeout_only
+#print axioms slow_link_flushes_whole_queue
+#print axioms frame_over_timeout_fails_call
 
 end Litep2pVerif.Props.C20
 
